@@ -2,6 +2,7 @@
 #include "/mcfg.h"
 
 int eh_count;
+void load_policy();
 int n_conn;
 mapping registry;
 
@@ -11,7 +12,7 @@ void set_create_script(string s) { create_script = s; }
 string take_create_script() { string s; s = create_script; create_script = 0; return s; }
 object lookup(string t) { if (!registry) return 0; return registry[t]; }
 
-void create() { rec("MASTER create"); }
+void create() { rec("MASTER create"); load_policy(); }
 
 object connect(int port) {
   object ob;
@@ -28,8 +29,25 @@ string creator_file(string file) { return "Root"; }
 string get_root_uid() { return "Root"; }
 string get_bb_uid() { return "Backbone"; }
 int valid_seteuid(object ob, string newuid) { return 1; }
-int valid_read(string file, object user, string func) { return 1; }
-int valid_write(string file, object user, string func) { return 1; }
+// policy: answers for successive valid_read/valid_write calls, read from /policy (written by the plan)
+string *policy; int policy_pos;
+string hexs(string s) { string r; int i; r = ""; for (i = 0; i < strlen(s); i++) r += sprintf("%02x", s[i] & 255); return r; }
+string unhex(string hex) { string r; int i, n; r = ""; for (i = 0; i + 1 < strlen(hex); i += 2) { sscanf(hex[i..i + 1], "%x", n); r += sprintf("%c", n); } return r; }
+mixed answer(string kind, string file, object user, string func) {
+  string a;
+  if (!policy || policy_pos >= sizeof(policy)) a = "1"; else a = policy[policy_pos++];
+  rec(kind + " " + func + " " + hexs(file) + " ans=" + a);
+  if (a == "0") return 0;
+  if (a == "1") return 1;
+  if (a == "I") return 7;
+  if (a == "A") return ({ "junk" });
+  if (a == "E") error("policy bomb\n");
+  if (strlen(a) > 2 && a[0..1] == "S:") return unhex(a[2..]);
+  return 1;
+}
+mixed valid_read(string file, object user, string func) { return answer("VR", file, user, func); }
+mixed valid_write(string file, object user, string func) { return answer("VW", file, user, func); }
+void load_policy() { string t; t = read_file("/policy"); if (t) policy = explode(t, "\n"); policy_pos = 0; }
 int valid_object(object ob) { return 1; }
 string *epilog(int eflag) { return ({ }); }
 void preload(string file) { }
